@@ -1,5 +1,5 @@
 use super::field_utils::{parse_name_and_address, parse_party_identifier};
-use super::swift_utils::{parse_bic, parse_swift_chars};
+use super::swift_utils::{ensure_ascii, parse_bic, parse_swift_chars};
 use crate::errors::ParseError;
 use crate::traits::SwiftField;
 use serde::{Deserialize, Serialize};
@@ -24,6 +24,7 @@ impl SwiftField for Field52A {
     where
         Self: Sized,
     {
+        ensure_ascii(input, "Field 52")?;
         let lines: Vec<&str> = input.lines().collect();
 
         if lines.is_empty() {
@@ -92,6 +93,7 @@ impl SwiftField for Field52B {
     where
         Self: Sized,
     {
+        ensure_ascii(input, "Field 52")?;
         if input.is_empty() {
             return Ok(Field52B {
                 party_identifier: None,
@@ -175,6 +177,7 @@ impl SwiftField for Field52C {
     where
         Self: Sized,
     {
+        ensure_ascii(input, "Field 52")?;
         if !input.starts_with('/') {
             return Err(ParseError::InvalidFormat {
                 message: "Field 52C must start with '/'".to_string(),
@@ -220,6 +223,7 @@ impl SwiftField for Field52D {
     where
         Self: Sized,
     {
+        ensure_ascii(input, "Field 52")?;
         let lines: Vec<&str> = input.lines().collect();
 
         if lines.is_empty() {
@@ -295,6 +299,7 @@ impl SwiftField for Field52AccountServicingInstitution {
     where
         Self: Sized,
     {
+        ensure_ascii(input, "Field 52")?;
         // Try Option A (BIC-based)
         if let Ok(field) = Field52A::parse(input) {
             return Ok(Field52AccountServicingInstitution::A(field));
@@ -358,6 +363,7 @@ impl SwiftField for Field52OrderingInstitution {
     where
         Self: Sized,
     {
+        ensure_ascii(input, "Field 52")?;
         // Try Option A (BIC-based) first
         if let Ok(field) = Field52A::parse(input) {
             return Ok(Field52OrderingInstitution::A(field));
@@ -430,6 +436,7 @@ impl SwiftField for Field52CreditorBank {
     where
         Self: Sized,
     {
+        ensure_ascii(input, "Field 52")?;
         // Try Option A (BIC-based) first
         if let Ok(field) = Field52A::parse(input) {
             return Ok(Field52CreditorBank::A(field));
@@ -507,6 +514,7 @@ impl SwiftField for Field52DrawerBank {
     where
         Self: Sized,
     {
+        ensure_ascii(input, "Field 52")?;
         // Try Option A (BIC-based) first
         if let Ok(field) = Field52A::parse(input) {
             return Ok(Field52DrawerBank::A(field));
